@@ -734,7 +734,11 @@ def _c19_tok_chunk(cases):
             r.fail(Failure('C19', 'tokenize-raises', src, type(e).__name__,
                            'a token list'))
             continue
-        cats = list(impl.categorize(src))
+        try:
+            cats = list(impl.categorize(src))
+        except BaseException as e:  # noqa
+            r.fail(Failure('C19', 'categorize-raises', src, type(e).__name__, 'one categorised character per character'))
+            continue
         if [str(c) for c in cats] != list(src) or [c.position for c in cats] != list(range(len(src))):
             r.fail(Failure('C19', 'categorize-sequence', src, 'chars/positions differ',
                            'character i at index i'))
